@@ -45,6 +45,12 @@ pub fn job_c03(out_dir: &str, tier: &str, seed: u64) {
             }
         }
     }
+    // a self-closing svg / math root is popped at once: what follows is HTML again (text-mode elements switch the tokenizer)
+    for root in ["<svg/>", "<math/>", "<svg x=1 />", "<MATH/>", "<svg/ >", "<p><svg/>", "<svg><svg/></svg>", "<math><mi><math/>"] {
+        for x in ["title", "textarea", "style", "script", "xmp", "plaintext", "b"] {
+            inputs.push(format!("{root}<{x} a=>t<b>u</b><![CDATA[v]]></{x}><i>w</i>").into_bytes());
+        }
+    }
     // template x table-structure contexts (the tree builder ignores text-mode tags there)
     for t in ["col", "colgroup", "caption", "tbody", "tr", "td"] {
         for x in ["title", "textarea", "style", "script", "xmp", "plaintext"] {
